@@ -32,6 +32,9 @@ type c02Case struct {
 	Cuts      []int            `json:"cuts,omitempty"`
 	Label     string           `json:"label"`
 	OpenNotif *world.NotifSpec `json:"open_notif,omitempty"`
+	// Trailer: a message pipelined right behind the OPEN in the same stream:
+	// 1 = Cease NOTIFICATION with 40 data bytes, 2 = UPDATE with a 64-byte body
+	Trailer int `json:"trailer,omitempty"`
 }
 
 func ipToU32(s string) uint32 {
@@ -281,6 +284,10 @@ func genC02(rt *rapid.T) c02Case {
 		c.Body = c.Body[:wire.MaxBody]
 	}
 	c.Cuts = genCuts(rt, wire.HeaderLen+len(c.Body))
+	if rapid.IntRange(0, 3).Draw(rt, "trailer") == 0 {
+		c.Trailer = rapid.IntRange(1, 2).Draw(rt, "trailerkind")
+		c.Cuts = genCuts(rt, wire.HeaderLen+len(c.Body)+60)
+	}
 	if rapid.IntRange(0, 7).Draw(rt, "pluginnotif") == 0 {
 		n := pick(rt, "pndata", 0, 1, 2, 7, 255)
 		c.OpenNotif = &world.NotifSpec{Code: pick[uint8](rt, "pncode", 2, 6, 2, rapid.Byte().Draw(rt, "pncoder")),
@@ -385,7 +392,14 @@ func c02Prop(t *testing.T, r *hx.Run) func(c c02Case) hx.Verdict {
 				fail("no-open-sent", "corebgp did not send exactly one OPEN on the new connection: %d messages, err %v", len(pre), perr)
 				return
 			}
-			conn.RemoteSend(wire.Frame(wire.TypeOpen, c.Body), c.Cuts)
+			stream := wire.Frame(wire.TypeOpen, c.Body)
+			switch c.Trailer {
+			case 1:
+				stream = append(stream, wire.Notif{Code: 6, Sub: 2, Data: bytes.Repeat([]byte{0xAA}, 40)}.Frame()...)
+			case 2:
+				stream = append(stream, wire.Frame(wire.TypeUpdate, bytes.Repeat([]byte{0x55}, 64))...)
+			}
+			conn.RemoteSend(stream, c.Cuts)
 			w.Settle()
 			msgs, perr := world.Parsed(conn)
 			if perr != nil {
@@ -433,7 +447,7 @@ func c02Prop(t *testing.T, r *hx.Run) func(c c02Case) hx.Verdict {
 					fail("plugin-notif-ignored", "OnOpenMessage returned a Notification but corebgp sent KEEPALIVE")
 					return
 				}
-				if len(after) != 1 {
+				if len(after) != 1 && c.Trailer == 0 {
 					fail("accept-extra-messages", "expected exactly a KEEPALIVE after the OPEN, got %d messages", len(after))
 					return
 				}
@@ -453,6 +467,13 @@ func c02Prop(t *testing.T, r *hx.Run) func(c c02Case) hx.Verdict {
 					fail("onopen-caps", "OnOpenMessage got capabilities %v, the OPEN carries %v", opens[0].Caps, ref.Parsed.AllCaps())
 					return
 				}
+				if s := w.RetainedIntact(); s != "" {
+					fail("capabilities-modified", "%s", s)
+					return
+				}
+				if c.Trailer != 0 {
+					return // what the pipelined message does to the session is C09's business
+				}
 				if st.LocalClosed {
 					fail("accept-closed", "corebgp sent KEEPALIVE and then closed the connection")
 					return
@@ -469,6 +490,13 @@ func c02Prop(t *testing.T, r *hx.Run) func(c c02Case) hx.Verdict {
 				}
 				if s2 := conn.Snapshot(); s2.LocalClosed {
 					fail("established-then-closed", "session was closed right after establishment")
+					return
+				}
+				// the capability slices handed to OnOpenMessage stay as they were
+				conn.RemoteSend(wire.Frame(wire.TypeUpdate, bytes.Repeat([]byte{0x33}, 200)), nil)
+				w.Settle()
+				if s := w.RetainedIntact(); s != "" {
+					fail("capabilities-modified", "%s", s)
 				}
 			case len(after) >= 1 && after[0].Type == wire.TypeNotification:
 				n, _ := wire.ParseNotif(after[0].Body)
